@@ -108,9 +108,55 @@ Qed.
 
 Lemma qsl_inv_init scr : qsl_inv (qsl_init scr).
 Proof.
-  unfold qsl_inv, chain_ok, out_ok, qsl_init, pcq, insq; cbn. repeat split; auto; try constructor.
-  - unfold thr_init. destruct (next_pc qentry (scr p) false); reflexivity.
-  - unfold thr_init. destruct (next_pc qentry (scr p) false) as [pc r] eqn:E. cbn.
-    destruct pc as [pc|]; [|auto]. apply next_pc_spec in E. destruct E as (o & -> & Ho).
-    destruct o; cbn; intuition congruence.
+  unfold qsl_inv, chain_ok. cbn [qsl_init q_chain q_tail]. split; [reflexivity|]. split; [constructor|].
+  intros p _. unfold out_ok, pcq, insq, qsl_init. cbn [q_next q_th].
+  unfold thr_init. destruct (next_pc qentry (scr p) false) as [pc r] eqn:E. cbn [t_pc t_ins].
+  split; [reflexivity|]. split; [reflexivity|].
+  destruct pc as [pc|]; [|left; reflexivity]. right.
+  apply next_pc_spec in E. destruct E as (o & -> & Ho).
+  destruct o; cbn; [left; reflexivity | right; reflexivity
+                   | exfalso; destruct Ho as [Ho _]; specialize (Ho eq_refl); discriminate].
 Qed.
+
+Lemma links_mono s s' l : forall a,
+  (forall x y, In x (a :: l) -> In y l -> link s x y -> link s' x y) ->
+  (forall y, In y l -> waiter_ok s y -> waiter_ok s' y) ->
+  (q_next s (last l a) = None -> q_next s' (last l a) = None) ->
+  links s a l -> links s' a l.
+Proof.
+  induction l as [|b r IH]; intros a HL HW HN; cbn in *; [auto|].
+  intros (L & W & R). split; [apply HL; auto|]. split; [apply HW; auto|].
+  apply IH; [ | | | exact R].
+  - intros x y Hx Hy. apply HL; [right; exact Hx | right; exact Hy].
+  - intros y Hy. apply HW. right. exact Hy.
+  - intros H. destruct r; [apply HN; exact H|]. rewrite (last_indep _ _ b a) in *. apply HN. exact H.
+Qed.
+
+(* where a participant is, given its program point *)
+Lemma where_is s p : qsl_inv s ->
+  (~ In p (q_chain s) /\ out_ok s p) \/
+  (exists r, q_chain s = p :: r /\ head_ok s p r /\ links s p r) \/
+  (exists h r, q_chain s = h :: r /\ p <> h /\ In p r /\ waiter_ok s p /\
+      (pcq s p = Some QSpin \/ exists o, pcq s p = Some (QStGot o) \/ pcq s p = Some (QStNext o))).
+Proof.
+  intros (HC & HN & HO). destruct (in_dec Nat.eq_dec p (q_chain s)) as [Hin|Hin]; [|left; auto].
+  right. unfold chain_ok in HC. destruct (q_chain s) as [|h r] eqn:E; [destruct Hin|].
+  destruct HC as (Hh & Hl & Ht). destruct (Nat.eq_dec p h) as [->|Hne]; [left; eauto|].
+  right. destruct Hin as [->|Hin]; [congruence|]. exists h, r.
+  destruct (links_member s r h p Hl Hin) as (W & P).
+  split; [reflexivity|]. split; [exact Hne|]. split; [exact Hin|]. split; [exact W|exact P].
+Qed.
+
+Ltac qz :=
+  repeat match goal with
+  | |- context [Nat.eqb ?a ?b] => destruct (Nat.eqb_spec a b); subst
+  | H : context [Nat.eqb ?a ?b] |- _ => destruct (Nat.eqb_spec a b); subst
+  end.
+Ltac lk :=
+  unfold link, waiter_ok, head_ok, out_ok, pcq, insq in *;
+  cbn [q_next q_got q_th q_tail q_chain t_pc t_ins t_scr thr_goto thr_goto_ins] in *;
+  unfold updn in *; qz;
+  cbn [q_next q_got q_th q_tail q_chain t_pc t_ins t_scr thr_goto thr_goto_ins] in *.
+Ltac qd t i :=
+  let H1 := fresh "Hd" in let H2 := fresh "Hd" in
+  destruct (qdone_ok t i) as [H1 H2].
